@@ -125,39 +125,41 @@ Qed.
    recorded in [po H]) *)
 Lemma write_sound : forall n0 R b0 H h h' e E x f ys l,
   inv_env n0 R h e E -> inv_heap n0 R H h -> inv_bt n0 R b0 H h -> inv_base n0 b0 h ->
-  e x = Some l -> write_rel h h' e l f ys ->
+  e x = Some l -> site_of h l <> LEAF_SITE -> write_rel h h' e l f ys ->
   store_ok H f (alook E x) (alooks E ys) = true ->
   ext h h' /\ inv_heap n0 R H h' /\ inv_bt n0 R b0 H h' /\ inv_base n0 b0 h' /\ next h' = next h.
 Proof.
-  intros n0 R b0 H h h' e E x f ys l He Hh Hbt Hb0 Hx [Hnext [Hsites [Hbases [Hkeep Hnew]]]] Hst.
+  intros n0 R b0 H h h' e E x f ys l He Hh Hbt Hb0 Hx Hnl [Hnext [Hsites [Hbases [Hkeep Hnew]]]] Hst.
   assert (Hext : ext h h').
   { split; [lia|]. intros m _. apply Hsites. }
   assert (Hgam : forall a k, gamma n0 R h a k -> gamma n0 R h' a k).
   { intros a k Hg. destruct a as [p|p|]; cbn [gamma] in *; [exact Hg| |exact Hg].
     rewrite Hsites. exact Hg. }
+  assert (Hdes : forall S k, descr n0 R h S k -> descr n0 R h' S k).
+  { intros S k [[a [Ha Hg]]|Hg]; [left; exists a; split; [exact Ha|exact (Hgam a k Hg)]|right; exact (Hgam _ k Hg)]. }
   assert (Hold : forall m g k, kids h m g k ->
     ((m < next h')%nat /\ (k < next h')%nat) /\
     ((m < n0)%nat -> ((k < n0)%nat /\ forall q, R q m -> R q k) \/
-                     exists a, PS.In a (fm_look (po H) g) /\ gamma n0 R h' a k) /\
-    ((n0 <= m)%nat -> exists a, PS.In a (hp_look (hp H) (site_of h' m) g) /\ gamma n0 R h' a k)).
+                     descr n0 R h' (fm_look (po H) g) k) /\
+    ((n0 <= m)%nat -> descr n0 R h' (hp_look (hp H) (site_of h' m) g) k)).
   { intros m g k Hk. rewrite Hnext, Hsites. destruct (Hh m g k Hk) as [Hlt [Ho Hn]].
     split; [exact Hlt|]. split.
-    - intros Hm. destruct (Ho Hm) as [Hcl|[a [Ha Hg]]]; [left; exact Hcl|right].
-      exists a. split; [exact Ha|exact (Hgam a k Hg)].
-    - intros Hge. destruct (Hn Hge) as [a [Ha Hg]]. exists a. split; [exact Ha|exact (Hgam a k Hg)]. }
+    - intros Hm. destruct (Ho Hm) as [Hcl|Hd]; [left; exact Hcl|right; exact (Hdes _ k Hd)].
+    - intros Hge. exact (Hdes _ k (Hn Hge)). }
   split; [exact Hext|]. split; [|split; [|split; [|exact Hnext]]].
   - intros m g k Hk. destruct (Nat.eq_dec m l) as [->|Hml].
     + destruct (Hnew g k Hk) as [Hk0|[-> [y [Hy Hey]]]]; [exact (Hold l g k Hk0)|].
       destruct (He x l Hx) as [Hl [a [Ha Hg]]]. destruct (He y k Hey) as [Hkn [c [Hc Hgc]]].
-      unfold store_ok in Hst. pose proof (forallb_aelems _ _ a Hst Ha) as Hsub. cbn beta in Hsub.
+      unfold store_ok in Hst. cbn zeta in Hst.
+      pose proof (forallb_aelems _ _ a Hst Ha) as Hsub. cbn beta in Hsub.
       pose proof (alooks_in E ys y c Hy Hc) as Hcv.
       rewrite Hnext. split; [lia|].
       destruct a as [q|q|]; cbn [gamma] in Hg; [| |destruct Hg].
       * destruct Hg as [Hlo _]. split; [|intros Hge; lia]. intros _. right.
-        exists c. split; [exact (asubset_in _ _ c Hsub Hcv)|exact (Hgam c k Hgc)].
+        exact (descr_noleaf n0 R h' _ _ c k Hcv (Hgam c k Hgc) Hsub).
       * destruct Hg as [Hge Hs]. split; [intros Hlt; lia|]. intros _.
-        exists c. split; [|exact (Hgam c k Hgc)].
-        rewrite Hsites, Hs. exact (asubset_in _ _ c Hsub Hcv).
+        rewrite Hsites, Hs. rewrite Hs in Hnl. apply N.eqb_neq in Hnl. rewrite Hnl in Hsub.
+        exact (descr_noleaf n0 R h' _ _ c k Hcv (Hgam c k Hgc) Hsub).
     + apply Hkeep in Hk; [|exact Hml]. exact (Hold m g k Hk).
   - intros m Hge Hm Hb. rewrite Hsites. rewrite Hbases in Hb. rewrite Hbases. rewrite Hnext in Hm. exact (Hbt m Hge Hm Hb).
   - intros m Hm. rewrite Hbases. exact (Hb0 m Hm).
@@ -182,7 +184,7 @@ Proof.
     [s st
     |st
     |x e st h' l Hev
-    |ln x f ys st l h' Hx Hw
+    |ln x f ys st l h' Hx Hnl Hw
     |a b st st1 o st2 Ha IHa Hb IHb
     |a b st st1 Ha IHa
     |a b st o st1 Ha IHa
@@ -208,7 +210,7 @@ Proof.
     destruct (store_ok H f (alook E x) (alooks E ys)) eqn:Hst; [|discriminate Hc].
     injection Hc as <- <-.
     destruct Hinv as [He Hh Hbt Hb0 Hn].
-    destruct (write_sound n0 R b0 H _ h' _ E x f ys l He Hh Hbt Hb0 Hx Hw Hst) as [Hext [Hh' [Hbt' [Hb0' Hnx]]]].
+    destruct (write_sound n0 R b0 H _ h' _ E x f ys l He Hh Hbt Hb0 Hx Hnl Hw Hst) as [Hext [Hh' [Hbt' [Hb0' Hnx]]]].
     split.
     + intros m Hm Hlt. cbn [st_log] in Hm. destruct Hm as [<-|Hm]; [|exact (Hlog m Hm Hlt)].
       destruct (write_attr n0 R b0 H _ _ E x l He Hbt Hb0 Hx Hlt) as [q [l' [Hq [Hr Hbl]]]].
